@@ -193,8 +193,52 @@ func factDedupAtomic() int {
 	return res
 }
 
+// Shutdown: the test-and-set of `shutdownRequested` lies between the top-level `s.mu.Lock()` and
+// `s.mu.Unlock()` — the model's `downEnter` (flag, initialisation, closing the listeners, the cancel and
+// the decrement) is ONE step because it is one critical section
+func factShutdownFlagUnderLock() int {
+	_, f := parseRepoFile("server-packet.go")
+	fd := findFunc(f, "s", "Shutdown")
+	if fd == nil {
+		return 2
+	}
+	var lock, unlock, cas token.Pos
+	for _, st := range fd.Body.List {
+		switch callName(st) {
+		case "s.mu.Lock":
+			if lock == 0 {
+				lock = st.Pos()
+			}
+		case "s.mu.Unlock":
+			if unlock == 0 {
+				unlock = st.Pos()
+			}
+		}
+	}
+	ast.Inspect(fd.Body, func(n ast.Node) bool {
+		if c, ok := n.(*ast.CallExpr); ok && cas == 0 {
+			name := exprName(c.Fun)
+			if strings.HasPrefix(name, "atomic.") && len(c.Args) > 0 {
+				if u, ok := c.Args[0].(*ast.UnaryExpr); ok && exprName(u.X) == "s.shutdownRequested" &&
+					(strings.Contains(name, "CompareAndSwap") || strings.Contains(name, "Store") || strings.Contains(name, "Swap")) {
+					cas = c.Pos()
+				}
+			}
+		}
+		return true
+	})
+	if lock == 0 || unlock == 0 || cas == 0 {
+		return 2
+	}
+	if lock < cas && cas < unlock {
+		return 1
+	}
+	return 0
+}
+
 func init() {
 	factProbes = append(factProbes, func(f *factSet) {
+		f.nat("shutdownFlagUnderLock", factShutdownFlagUnderLock())
 		f.nat("newUsesCryptoRand", factNewUsesCryptoRand())
 		f.nat("countedUnderLock", factCountedUnderLock())
 		f.nat("dedupAtomic", factDedupAtomic())
